@@ -130,7 +130,13 @@ pub fn parse_val_prefix(s: &str) -> Option<(LhsValue<'static>, &str)> {
                 r = r2;
             }
         }
-        let arr = Array::try_from_vec(t, items).ok()?;
+        // both public checked constructors must enforce homogeneity identically
+        let via_iter = Array::try_from_iter(t, items.iter().cloned());
+        let via_vec = Array::try_from_vec(t, items);
+        if via_iter.is_ok() != via_vec.is_ok() {
+            panic!("Array::try_from_iter and Array::try_from_vec disagree on acceptance");
+        }
+        let arr = via_vec.ok()?;
         return Some((LhsValue::Array(arr), r));
     }
     if let Some(r) = s.strip_prefix('m') {
